@@ -267,6 +267,25 @@ func (x *Exec) localNamed(name string, c *evalCtx) *ssa.Alloc {
 		return nil
 	}
 	var best *ssa.Alloc
+	// a named result of the function under verification wins over shadowing locals of the same name
+	if x.fn != nil {
+		res := x.fn.Signature.Results()
+		for i := 0; i < res.Len(); i++ {
+			if res.At(i).Name() == name {
+				var first *ssa.Alloc
+				for _, b := range x.fn.Blocks {
+					for _, in := range b.Instrs {
+						if a, ok := in.(*ssa.Alloc); ok && a.Comment == name && (first == nil || a.Pos() < first.Pos()) {
+							first = a
+						}
+					}
+				}
+				if first != nil {
+					return first
+				}
+			}
+		}
+	}
 	for f := c.fr; f != nil; f = f.parent {
 		for _, b := range f.fn.Blocks {
 			for _, in := range b.Instrs {
@@ -541,6 +560,21 @@ func (x *Exec) evalBinary(e gcl.Binary, c *evalCtx) (typed, error) {
 func (x *Exec) evalCall(e gcl.Call, c *evalCtx) (typed, error) {
 	if e.Fun == "called" || e.Fun == "callres" {
 		return x.evalCallRef(e, c)
+	}
+	if e.Fun == "fn" && len(e.Args) == 1 { // fn(pkg.Name) / fn(Name): the function value constant
+		name := e.Args[0].String()
+		pkgName, fname := "", name
+		if i := strings.LastIndex(name, "."); i >= 0 {
+			pkgName, fname = name[:i], name[i+1:]
+		}
+		for _, p := range x.P.Prog.AllPackages() {
+			if (pkgName == "" && p.Pkg.Path() == c.pkg) || (pkgName != "" && p.Pkg.Name() == pkgName) {
+				if f := p.Func(fname); f != nil {
+					return tv(x.ctx.Const("fn$"+f.String(), smt.Int), nil), nil
+				}
+			}
+		}
+		return typed{}, fmt.Errorf("fn(%s): no such function", name)
 	}
 	var args []typed
 	for _, a := range e.Args {
